@@ -53,8 +53,9 @@ def run(chk, ctx, scope, oracle_names, n_quick, n_thorough, rules=None, families
     for lab, nq, nt, rl, fm in extra:
         cases += gen_cases(chk, nq if quick else nt, rl, fm, label=lab, tweak=tweak)
     use_model = ctx['model'] is not None
-    res = cd.run_cases(cases, oracle_names=oracle_names, timeout=timeout, use_model=use_model)
-    dist = collections.Counter(); fam = collections.Counter()
+    ne2e = (150 if quick else 3000) if use_model else 0
+    res = cd.run_cases(cases, oracle_names=oracle_names, timeout=timeout, use_model=use_model, e2e=ne2e)
+    dist = collections.Counter(); fam = collections.Counter(); e2e_stat = collections.Counter()
     notexp = 0; ndis = 0; dis_rule_set = set(); nhang = 0
     stats_tot = collections.Counter()
     for (blt, o), r in zip(cases, res):
@@ -95,6 +96,16 @@ def run(chk, ctx, scope, oracle_names, n_quick, n_thorough, rules=None, families
             chk.violation(v['kind'] + ": " + v['detail'][:300], dict(blt=blt, options=o, oracle=name, kind=v['kind'], detail=v['detail'], status=st),
                           signature=sig)
         m = r.get('model')
+        if m is not None and r.get('e2e') is not None and not m.startswith('MODEL-TIMEOUT') and not r['e2e'].startswith('MODEL-TIMEOUT'):
+            # text -> reader model -> count model must give what the count model gives on the profile the implementation parsed
+            e2e_stat['compared'] += 1
+            if r['e2e'] != m:
+                e2e_stat['differ'] += 1
+                ndis += 1; dis_rule_set.add(o['rule'])
+                ctx['broken'].append("correspondence e2e: reader model + count model differ from the count model on the parsed profile: %s" %
+                                     json.dumps(cd.first_diff(r['e2e'], m))[:400])
+                if e2e_stat['differ'] <= 2:
+                    chk.cov.setdefault('disagreements', []).append(dict(blt=blt, options=o, e2e_first_difference=cd.first_diff(r['e2e'], m)))
         if m is not None:
             if m.startswith('MODEL-TIMEOUT') or 'X OutOfFuel' in m[-20:]:
                 notexp += 1
@@ -127,6 +138,7 @@ def run(chk, ctx, scope, oracle_names, n_quick, n_thorough, rules=None, families
     chk.cov['input_distribution'] = {"%s/%s/%s" % k: v for k, v in sorted(dist.items())}
     chk.cov['trace_totals'] = dict(stats_tot)
     chk.cov['not_explored_budget'] = notexp
+    chk.cov['e2e_reader_plus_count_model'] = dict(e2e_stat)
     chk.cov['correspondence_scope'] = scope
     chk.cov['corpus_cases'] = len(corpus)
     if cases:
